@@ -231,7 +231,8 @@ def listing_part(ctx):
                 if present and draw(st.booleans()):
                     k, v = draw(st.sampled_from(present))
                     out[k] = draw(st.sampled_from([v, [v], [v, None], {'operator': '=', 'value': v},
-                                                   {'operator': '!=', 'value': v}]))
+                                                   {'operator': '!=', 'value': v}, [[None], v], [[v, None]],
+                                                   [[[None]]], [{'operator': '=', 'value': v}, None]]))
                 else:
                     out[draw(st.sampled_from(KEYS))] = draw(filters)
             return out
